@@ -15,6 +15,7 @@ import (
 	"github.com/ipld/go-car/v2/internal/carv1"
 	internalio "github.com/ipld/go-car/v2/internal/io"
 	"github.com/ipld/go-car/v2/internal/store"
+	"github.com/ipld/go-car/v2/verifhook"
 	"github.com/multiformats/go-varint"
 	"golang.org/x/exp/mmap"
 )
@@ -222,8 +223,11 @@ func (b *ReadOnly) Has(ctx context.Context, key cid.Cid) (bool, error) {
 		}
 	}
 
+	verifhook.Gate(b, "Has", "pre")
 	b.mu.RLock()
 	defer b.mu.RUnlock()
+	verifhook.Gate(b, "Has", "locked")
+	defer verifhook.Gate(b, "Has", "unlocking")
 
 	if b.closed {
 		return false, errClosed
@@ -266,8 +270,11 @@ func (b *ReadOnly) Get(ctx context.Context, key cid.Cid) (blocks.Block, error) {
 		}
 	}
 
+	verifhook.Gate(b, "Get", "pre")
 	b.mu.RLock()
 	defer b.mu.RUnlock()
+	verifhook.Gate(b, "Get", "locked")
+	defer verifhook.Gate(b, "Get", "unlocking")
 
 	if b.closed {
 		return nil, errClosed
@@ -300,8 +307,11 @@ func (b *ReadOnly) GetSize(ctx context.Context, key cid.Cid) (int, error) {
 		return len(digest), nil
 	}
 
+	verifhook.Gate(b, "GetSize", "pre")
 	b.mu.RLock()
 	defer b.mu.RUnlock()
+	verifhook.Gate(b, "GetSize", "locked")
+	defer verifhook.Gate(b, "GetSize", "unlocking")
 
 	if b.closed {
 		return 0, errClosed
@@ -352,7 +362,9 @@ func (b *ReadOnly) AllKeysChan(ctx context.Context) (<-chan cid.Cid, error) {
 	// Note that we can't use a deferred unlock here,
 	// because if we return a nil error,
 	// we only want to unlock once the async goroutine has stopped.
+	verifhook.Gate(b, "AllKeysChan", "pre")
 	b.mu.RLock()
+	verifhook.Gate(b, "AllKeysChan", "locked")
 
 	if b.closed {
 		b.mu.RUnlock() // don't hold the mutex forever
@@ -386,6 +398,7 @@ func (b *ReadOnly) AllKeysChan(ctx context.Context) (<-chan cid.Cid, error) {
 
 	go func() {
 		defer b.mu.RUnlock()
+		defer verifhook.Gate(b, "AllKeysChan", "unlocking")
 		defer close(ch)
 
 		for {
@@ -471,8 +484,11 @@ func (b *ReadOnly) Roots() ([]cid.Cid, error) {
 // Note that this call may block if any blockstore operations are currently in
 // progress, including an AllKeysChan that hasn't been fully consumed or cancelled.
 func (b *ReadOnly) Close() error {
+	verifhook.Gate(b, "Close", "pre")
 	b.mu.Lock()
 	defer b.mu.Unlock()
+	verifhook.Gate(b, "Close", "locked")
+	defer verifhook.Gate(b, "Close", "unlocking")
 
 	return b.closeWithoutMutex()
 }
